@@ -704,7 +704,7 @@ func (c *Ctx) helperSiblings() []Obligation {
 		}
 		h := &helper{fn: fn, fd: fd, arms: map[string]string{}}
 		p := c.declPkg[fd]
-		se := newSymEval(c, p, fd, "ir")
+		_ = newSymEval
 		// parameters print as P0, P1 …
 		i := 0
 		pnames := map[types.Object]string{}
@@ -720,22 +720,119 @@ func (c *Ctx) helperSiblings() []Obligation {
 			}
 			return s
 		}
-		for _, st := range fd.Body.List {
+		// The helper is a fold over the index path: step(t, idx) is given by the arms of a type
+		// switch over t. Two spellings are read: the recursive one
+		//     if len(indices) == 0 { return t };  switch t := t.(type) { case K: return self(NEXT, indices[1:]) }
+		// and the iterative one
+		//     for _, idx := range indices { switch v := t.(type) { case K: t = NEXT } };  return t
+		// NEXT is normalised on the switch variable ($t) and the current index ($idx).
+		_ = subst
+		info := p.TypesInfo
+		var tParam, idxParam types.Object
+		if ps := fn.Type().(*types.Signature).Params(); ps.Len() == 2 {
+			tParam, idxParam = ps.At(0), ps.At(1)
+		}
+		norm := func(e ast.Expr, tv, iv types.Object, recursive bool) string {
+			var render func(x ast.Expr) string
+			render = func(x ast.Expr) string {
+				switch x := unparen(x).(type) {
+				case *ast.Ident:
+					obj := info.ObjectOf(x)
+					switch {
+					case obj != nil && (obj == tv):
+						return "$t"
+					case obj != nil && iv != nil && obj == iv:
+						return "$idx"
+					}
+					return x.Name
+				case *ast.SelectorExpr:
+					return render(x.X) + "." + x.Sel.Name
+				case *ast.IndexExpr:
+					if recursive {
+						if id, ok := unparen(x.X).(*ast.Ident); ok && info.ObjectOf(id) == idxParam && exprString(x.Index) == "0" {
+							return "$idx"
+						}
+					}
+					return render(x.X) + "[" + render(x.Index) + "]"
+				}
+				return exprString(x)
+			}
+			return render(e)
+		}
+		readSwitch := func(ts *ast.TypeSwitchStmt, iv types.Object, recursive bool) {
+			// the switch variable (or, without one, the switched expression itself)
+			var tv types.Object
+			if as, ok := ts.Assign.(*ast.AssignStmt); ok && len(as.Lhs) == 1 {
+				if id, ok := as.Lhs[0].(*ast.Ident); ok {
+					_ = id // implicit objects per clause, resolved below
+				}
+			}
+			for _, cc := range ts.Body.List {
+				cl := cc.(*ast.CaseClause)
+				if cl.List == nil || len(cl.Body) != 1 {
+					continue
+				}
+				tv = info.Implicits[cl]
+				var next ast.Expr
+				switch st := cl.Body[0].(type) {
+				case *ast.ReturnStmt:
+					if recursive && len(st.Results) == 1 {
+						if call, ok := st.Results[0].(*ast.CallExpr); ok && calleeOf(info, call) == fn && len(call.Args) == 2 {
+							if strings.ReplaceAll(exprString(call.Args[1]), " ", "") == idxParam.Name()+"[1:]" {
+								next = call.Args[0]
+							}
+						}
+					}
+				case *ast.AssignStmt:
+					if !recursive && len(st.Lhs) == 1 && len(st.Rhs) == 1 && st.Tok == token.ASSIGN {
+						if id, ok := st.Lhs[0].(*ast.Ident); ok && info.ObjectOf(id) == tParam {
+							next = st.Rhs[0]
+						}
+					}
+				}
+				if next == nil {
+					continue
+				}
+				for _, e := range cl.List {
+					h.arms[shortTypeName(typeKey(info.TypeOf(e)))] = norm(next, tv, iv, recursive)
+				}
+			}
+		}
+		for i, st := range fd.Body.List {
 			switch st := st.(type) {
 			case *ast.IfStmt:
 				if len(st.Body.List) == 1 && isReturn1(st.Body.List[0]) {
-					h.pre += "if " + exprString(st.Cond) + " → " + subst(se.term(st.Body.List[0].(*ast.ReturnStmt).Results[0])) + "; "
+					cond := strings.ReplaceAll(exprString(st.Cond), " ", "")
+					ret := st.Body.List[0].(*ast.ReturnStmt).Results[0]
+					if id, ok := unparen(ret).(*ast.Ident); ok && idxParam != nil && cond == "len("+idxParam.Name()+")==0" && info.ObjectOf(id) == tParam {
+						h.pre = "empty index path → the type itself"
+					} else {
+						h.pre += "if " + exprString(st.Cond) + " → " + exprString(ret) + "; "
+					}
 				}
 			case *ast.TypeSwitchStmt:
 				h.found = true
-				for _, cc := range st.Body.List {
-					cl := cc.(*ast.CaseClause)
-					if cl.List == nil || len(cl.Body) != 1 || !isReturn1(cl.Body[0]) {
-						continue
+				readSwitch(st, nil, true)
+			case *ast.RangeStmt:
+				if id, ok := unparen(st.X).(*ast.Ident); !ok || info.ObjectOf(id) != idxParam {
+					continue
+				}
+				var iv types.Object
+				if v, ok := st.Value.(*ast.Ident); ok {
+					iv = info.ObjectOf(v)
+				}
+				for _, inner := range st.Body.List {
+					if ts, ok := inner.(*ast.TypeSwitchStmt); ok {
+						h.found = true
+						readSwitch(ts, iv, false)
 					}
-					t := subst(se.term(cl.Body[0].(*ast.ReturnStmt).Results[0]))
-					for _, e := range cl.List {
-						h.arms[shortTypeName(typeKey(p.TypesInfo.TypeOf(e)))] = t
+				}
+				// the fold returns the accumulated type
+				if i+1 < len(fd.Body.List) {
+					if r, ok := fd.Body.List[i+1].(*ast.ReturnStmt); ok && len(r.Results) == 1 {
+						if id, ok := unparen(r.Results[0]).(*ast.Ident); ok && info.ObjectOf(id) == tParam && h.pre == "" {
+							h.pre = "empty index path → the type itself"
+						}
 					}
 				}
 			}
